@@ -18,7 +18,7 @@ CONFIGS = ('{<< <<"a",2,2>>, <<"b",1,5>> >>, << <<"a",1,0-4>>, <<"a",2,0>>, <<"b
 RUNSPECS = '{<<0,2,TRUE,100>>, <<1,2,TRUE,50>>, <<0,1,TRUE,25>>, <<0,3,FALSE,100>>, <<2,2,TRUE,50>>}'
 SHAPE = ('MC_Shape == LET n == Len(hist\') IN\n'
          '   /\\ (n = 1 => hist\'[1].op = "Configure")\n'
-         '   /\\ ((n > 1 /\\ n < L) => hist\'[n].op \\in {"PlanSet", "PlanDel"})\n'
+         '   /\\ ((n > 1 /\\ n < L) => hist\'[n].op \\in {"PlanSet", "PlanDel", "PlanEnd"})\n'
          '   /\\ (n = L => hist\'[n].op = "Run")\n')
 
 
@@ -152,7 +152,11 @@ def run(tier, replay_file=None):
     hs, _ = gen.histories("Abm", consts(3, 3, 0, '{"Create","SetState","SetVal","Delete","RunStep"}'), 4 if quick else 5)
     if quick:
         rng.shuffle(hs); hs = hs[:6000]
-    h2, _ = gen.histories("Abm", consts(8, 60, 8, '{"Create","Delete","SetState","SetVal","PlanSet","PlanDel","RunStep","Run"}', runspecs=RUNSPECS),
+    # every history Create, <something planned for Model.end_round>, RunStep (the statistics are collected after end_round)
+    he, _ = gen.histories("Abm", consts(2, 2, 2, '{"Create","PlanEnd","RunStep"}', ahead=0), 3)
+    hs = hs + he
+    R.cov["end_round_histories"] = len(he)
+    h2, _ = gen.histories("Abm", consts(8, 60, 8, '{"Create","Delete","SetState","SetVal","PlanSet","PlanDel","PlanEnd","RunStep","Run"}', runspecs=RUNSPECS),
                           20 if quick else 40, simulate=50 if quick else 1000, seed=common.seed() + 3, cache=False)
     R.cov["bfs_histories"], R.cov["sim_histories"] = len(hs), len(h2)
     cells = 0
@@ -171,7 +175,7 @@ def run(tier, replay_file=None):
     R.cov["populated_cells_compared"] = cells
     # 3. spec -> code through bptk.run_scenarios (df / dict / json, selections)
     RS_T = '{<<0,2,TRUE,100>>, <<1,2,TRUE,50>>, <<0,1,TRUE,25>>, <<2,2,TRUE,50>>, <<1,3,TRUE,100>>}'   # bptk always collects
-    h3, _ = gen.histories("Abm", consts(8, 60, 5, '{"Configure","PlanSet","PlanDel","Run"}', runspecs=RS_T, configs=CONFIGS, ahead=3),
+    h3, _ = gen.histories("Abm", consts(8, 60, 5, '{"Configure","PlanSet","PlanDel","PlanEnd","Run"}', runspecs=RS_T, configs=CONFIGS, ahead=3),
                           6, simulate=120 if quick else 1000, seed=common.seed() + 11, cache=False,
                           defs=SHAPE, constraints=("Bound",), extra_cfg={"action_constraints": ["MC_Shape"]})
     h3 = [h for h in h3 if h[0]["op"] == "Configure" and h[-1]["op"] == "Run" and all(x["op"].startswith("Plan") for x in h[1:-1])]
